@@ -4190,3 +4190,8 @@ mod test {
         check_with_mangling(src, expect);
     }
 }
+
+// verification hooks (glass_easel_verif): compiled only under the cfg guard
+#[cfg(any(kani, glass_easel_verif))]
+#[path = "/verif/hooks/tc_parse_tag.rs"]
+mod verif;
